@@ -112,6 +112,9 @@ def lhs_catalogue(W):
             cat.append((f"cat{sa}{sb}", [sa, sb], [], lambda x, y: Cat(x, y)))
             for iw in (0, 1, 2):
                 cat.append((f"array{sa}{sb}[{iw}]", [sa, sb], [(iw, False)], lambda x, y, i: Array([x, y])[i]))
+            # a Mux as a target: a choice whose second case is a catch-all (only the FIRST matching case is written)
+            for iw in (1, 2):
+                cat.append((f"mux{sa}{sb}[{iw}]", [sa, sb], [(iw, False)], lambda x, y, i: __import__("amaranth").hdl.Mux(i, x, y)))
     # depth 2
     sh = (W, False)
     shs_ = (W, True)
@@ -296,6 +299,13 @@ PROGRAMS = [
      [("switch", IN(0), [((1,), [_set(0, 0, 4, 3)]), (None, [_set(0, 1, 3, 2)])]), _set(0, 0, 4, IN(1))]),
     ([(1, False), (4, False)], [(4, False)],
      [_set(0, 0, 2, 1), ("if", [(IN(0), [_set(0, 2, 4, 3)])], [_set(0, 0, 4, 7)]), _set(0, 0, 4, IN(1)), ("if", [(IN(0), [_set(0, 3, 4, 0)])], None)]),
+    # the same inner test (same patterns, same source line) under DIFFERENT enclosing conditions -- as written by a loop
+    ([(1, False), (1, False), (1, False)], [(4, False)],
+     [("if", [(IN(0), [("if", [(IN(2), [_set(0, 0, 1, 1)])], None)])], None),
+      ("if", [(IN(1), [("if", [(IN(2), [_set(0, 1, 2, 1)])], None)])], None)]),
+    ([(1, False), (1, False), (2, False)], [(4, False)],
+     [("if", [(IN(0), [("switch", IN(2), [((1,), [_set(0, 0, 2, 1)]), (None, [_set(0, 0, 2, 2)])])]),
+              (IN(1), [("switch", IN(2), [((1,), [_set(0, 2, 4, 1)]), (None, [_set(0, 2, 4, 2)])])])], None)]),
     # a Case / If branch with an EMPTY body still takes part in the selection: it shadows later overlapping blocks
     ([(2, False)], [(4, False)],
      [("switch", IN(0), [((1,), []), (("-1",), [_set(0, 0, 4, 3)]), (None, [_set(0, 0, 4, 6)])])]),
